@@ -750,9 +750,9 @@ func (c *c08Run) pair(v cty.Value, t cty.Type, deep bool) {
 			// the first result carried optional annotations (reported as result_no_optional)
 			sig = "first-result-has-optional"
 		} else if _, rm := r.UnmarkDeep(); len(rm) > 0 {
-			_, am := again.v.UnmarkDeep()
+			// a marked null inside r is rebuilt without its marks by the second conversion
 			for m := range rm {
-				if _, ok := am[m]; !ok && c08MarkedNullCarries(r, m) {
+				if c08MarkedNullCarries(r, m) {
 					sig = "null-element-rebuilt-without-marks"
 				}
 			}
